@@ -70,6 +70,10 @@ pub struct LayoutFeatures {
     pub adjacent: usize,
     pub eof_comment: bool,
     pub multibyte_in_comment: bool,
+    /// a comment of >= 300 characters somewhere
+    pub long_piece: bool,
+    /// the first token starts beyond byte 65 536
+    pub huge_lead: bool,
 }
 
 impl LayoutFeatures {
@@ -132,6 +136,19 @@ fn separator(ch: &mut Chooser, must_separate: bool, at_end: bool, feats: &mut La
             6 | 7 | 8 => {
                 let body = COMMENT_BODIES[ch.pick(COMMENT_BODIES.len())];
                 s.push_str("//");
+                // 1 comment in 64 is long (300 or 5000 characters, some of them multi-byte): length thresholds
+                match ch.pick(128) {
+                    127 => {
+                        s.push_str(&"long comment é ".repeat(334));
+                        feats.multibyte_in_comment = true;
+                        feats.long_piece = true;
+                    }
+                    126 => {
+                        s.push_str(&"c".repeat(300));
+                        feats.long_piece = true;
+                    }
+                    _ => {}
+                }
                 s.push_str(body);
                 if !body.is_ascii() {
                     feats.multibyte_in_comment = true;
@@ -176,6 +193,23 @@ pub fn render(atoms: &[Atom], layout: &[u16]) -> Rendered {
             text.push_str(&a.text);
         }
         return Rendered { text, spans, features: feats };
+    }
+    // 1 rendering in 96 starts with > 64 KiB of comment or whitespace: every position in the file exceeds 16 bits
+    if ch.pick(96) == 95 {
+        match ch.pick(3) {
+            0 => {
+                text.push_str("//");
+                text.push_str(&"x".repeat(66_000));
+                text.push('\n');
+            }
+            1 => {
+                text.push_str("//");
+                text.push_str(&"é".repeat(33_000));
+                text.push_str("\r\n");
+            }
+            _ => text.push_str(&" \n\t\u{3000}".repeat(11_000)),
+        }
+        feats.huge_lead = true;
     }
     // leading
     let lead = separator(&mut ch, false, atoms.is_empty(), &mut feats);
